@@ -1,298 +1,241 @@
-"""Translator for C16: regenerates, from the working tree's src/pyramid/static.py, the facts about `_secure_path`
-that the containment proof rests on.
+"""Translator for C16: regenerates, from the working tree's src/pyramid/static.py, the facts about `_secure_path`,
+`get_resource_name` and `find_resource_path` that the containment proof rests on — by RUNNING the code of the tree under
+test and probing it exhaustively over finite domains (no AST pattern matching: every fact below is a behavioural table,
+so it survives any refactoring that preserves behaviour and changes under any that does not).
 
- * `_invalid_element_chars = {'/', os.sep, '\\x00'}`       -> the list of characters (os.sep is '/' on POSIX)
- * `_has_insecure_pathelement = {'..', '.', ''}.intersection` -> the list of forbidden elements
- * `_contains_invalid_element_char(item)`                  -> shape: for c in _invalid_element_chars: if c in item: return True
- * `_secure_path(path_tuple)`                              -> shape: the two refusals (in either order), then
-                                                              `'/'.join(path_tuple)` returned (directly or through a local)
- * `static_view.get_resource_name`                         -> `_secure_path` is applied to the tuple, `None` raises HTTPNotFound,
-                                                              and every later use goes through the checked value;
-                                                              without use_subpath the tuple is `traversal_path_info` of the RAW
-                                                              `request.environ` PATH_INFO (decoded once), not of `request.path_info`
- * `static_view.find_resource_path`                        -> only regular files: `isfile(name)` /
-                                                              `resource_exists(pkg, name) and not resource_isdir(pkg, name)`
+The probe runs in a fresh interpreter (`<python> extract/c16.py --probe <src_root>`, PYTHONPATH=<src_root>) so that the
+module state of the runner (lru caches, already imported pyramid) is neither used nor disturbed.  It needs a scratch
+directory (tempfile.mkdtemp, removed before the probe exits).
 
-Anything that does not have the expected shape is emitted as the string "unknown: …" (and the tables as empty
-lists), which makes the `decide`d obligations in Props/C16.lean fail.  Local variable names are not significant.
+Probed facts (emitted as Lean data in Gen/C16.lean, decided against the model in Props/C16.lean):
+ * invalidElementChars  the characters c for which `_secure_path((x,))` is None for elements x containing c —
+                        domain: every BMP code point except surrogates plus 6 astral ones, at the start / in the middle /
+                        at the end of an element, in the first and in the second position of the tuple (must agree)
+ * insecureElements     the elements e free of such characters for which `_secure_path` is None — domain: every string of
+                        length <= 3 over {'.', 'a', ' ', '-', '~'} (156), alone / first / last / in the middle (must agree)
+ * securePathProbe      `_secure_path(t)` for every tuple t of length <= 2 over 10 elements (111 entries)
+ * resourceNameProbe    `static_view(root, use_subpath=True).get_resource_name(request)` with `request.subpath = t` for the
+                        same 111 tuples, for a filesystem root (a fixed absolute path that does not exist) and a
+                        package-relative root (`pkg:static/` of a scratch package): HTTPNotFound | add-slash redirect (the
+                        package root itself) | the resource name
+ * pathInfoProbe        `static_view(root, use_subpath=False).get_resource_name(request)` for 16 raw PATH_INFO values
+                        (ASCII, UTF-8 two- and three-byte names, `..`, `//`, `%2e%2e`, backslash, NUL, overlong UTF-8):
+                        URLDecodeError | HTTPNotFound | the resource name
+ * findResourceProbe    `find_resource_path(name)` for a regular file / a directory / a missing name, filesystem and
+                        package root: found or not, and that what is returned is the OS path of the name
+Fail closed: any exception, time-out, disagreement between positions or unexpected value makes `probeStatus` an
+"unknown: …" string and empties the tables, so every obligation of Props/C16.lean §0 fails.
 """
-import ast, os
+import itertools, json, os, subprocess, sys
 
 summary = {}
 
+PROBE_ROOT = '/nonexistent-c16/www'
+ELEMENTS = ['a', 'b.c', '..', '.', '', 'a/b', 'x\x00y', '...', '..a', 'b\\c']
+PATH_INFOS = ['/a', '/a/b.c', '/', '', '/a/../b', '//a//./b/', '/../../x', '/%2e%2e/x', '/a\\b', '/..\\..\\x', '/a\x00',
+              '/\xc3\xbc', '/d/\xe6\x97\xa5', '/\xc0\xae\xc0\xae/x', '/\xc3', '/...']
+
+
+# ------------------------------------------------------------------------------------------------
+# the probe (runs in its own interpreter with the tree under test first on sys.path)
+
+def _probe():
+    import shutil, tempfile
+    out = {}
+    tmp = os.path.realpath(tempfile.mkdtemp(prefix='c16probe_'))
+    try:
+        import pyramid.static as S
+        from pyramid.request import Request
+        from pyramid.httpexceptions import HTTPNotFound, HTTPMovedPermanently
+        from pyramid.exceptions import URLDecodeError
+        out['module'] = os.path.realpath(S.__file__)
+        sp = S._secure_path
+
+        # --- characters
+        cps = [c for c in range(0x10000) if not 0xD800 <= c <= 0xDFFF] + [0x10000, 0x1F600, 0x1D518, 0xE0001, 0xFFFFF, 0x10FFFF]
+        bad = []
+        for cp in cps:
+            c = chr(cp)
+            rs = {sp((c + 'ab',)) is None, sp(('a' + c + 'b',)) is None, sp(('ab' + c,)) is None, sp(('x', 'a' + c + 'b')) is None,
+                  sp(('a' + c + 'b', 'x')) is None}
+            if len(rs) != 1:
+                raise RuntimeError('refusal of character U+%04X depends on its position' % cp)
+            if rs.pop():
+                bad.append(cp)
+        out['chars'] = bad
+        # --- elements
+        alpha = [a for a in ['.', 'a', ' ', '-', '~'] if ord(a) not in bad]
+        if len(alpha) != 5:
+            raise RuntimeError('probe alphabet intersects the refused characters')
+        elems = []
+        for n in range(4):
+            for combo in itertools.product(alpha, repeat=n):
+                e = ''.join(combo)
+                rs = {sp((e,)) is None, sp((e, 'x')) is None, sp(('x', e)) is None, sp(('x', e, 'y')) is None}
+                if len(rs) != 1:
+                    raise RuntimeError('refusal of element %r depends on its position' % e)
+                if rs.pop():
+                    elems.append(e)
+        out['elems'] = elems
+        # --- _secure_path on small tuples
+        tuples = [()] + [(a,) for a in ELEMENTS] + [(a, b) for a in ELEMENTS for b in ELEMENTS]
+        table = []
+        for t in tuples:
+            r = sp(t)
+            if r is not None and not isinstance(r, str):
+                raise RuntimeError('_secure_path returned %r' % type(r))
+            table.append([list(t), r])
+        out['secure'] = table
+
+        # --- a scratch package and a scratch filesystem root
+        pkg = 'c16probe_pkg_%d' % os.getpid()
+        os.makedirs(os.path.join(tmp, pkg, 'static', 'dir'))
+        open(os.path.join(tmp, pkg, '__init__.py'), 'w').close()
+        with open(os.path.join(tmp, pkg, 'static', 'file.txt'), 'w') as f:
+            f.write('x')
+        os.makedirs(os.path.join(tmp, 'site', 'dir'))
+        with open(os.path.join(tmp, 'site', 'file.txt'), 'w') as f:
+            f.write('x')
+        sys.path.insert(0, tmp)
+
+        def request(path_info='/p'):
+            env = {'REQUEST_METHOD': 'GET', 'SCRIPT_NAME': '', 'PATH_INFO': path_info, 'QUERY_STRING': '', 'SERVER_NAME': 'localhost',
+                   'SERVER_PORT': '80', 'HTTP_HOST': 'localhost:80', 'SERVER_PROTOCOL': 'HTTP/1.0', 'wsgi.url_scheme': 'http'}
+            return Request(env)
+
+        def name_of(view, req):
+            try:
+                r = view.get_resource_name(req)
+            except HTTPNotFound:
+                return ['notfound', None]
+            except HTTPMovedPermanently:
+                return ['redirect', None]
+            except URLDecodeError:
+                return ['urldecode', None]
+            if not isinstance(r, str):
+                raise RuntimeError('get_resource_name returned %r' % type(r))
+            return ['name', r]
+
+        # --- get_resource_name with an arbitrary subpath (nothing below the probe roots is a directory)
+        rn = []
+        for is_pkg, spec in ((False, PROBE_ROOT), (True, pkg + ':static/')):
+            view = S.static_view(spec, use_subpath=True)
+            if is_pkg and (view.package_name != pkg or view.docroot != 'static/'):
+                raise RuntimeError('package root resolved to %r:%r' % (view.package_name, view.docroot))
+            if not is_pkg and (view.package_name or view.norm_docroot != PROBE_ROOT):
+                raise RuntimeError('filesystem root resolved to %r' % (view.norm_docroot,))
+            for t in tuples:
+                if is_pkg and any(x in ('dir', 'file.txt') for x in t):
+                    continue
+                req = request()
+                req.subpath = t
+                rn.append([is_pkg, list(t)] + name_of(view, req))
+        out['resource_name'] = rn
+        # --- get_resource_name without use_subpath: raw PATH_INFO
+        view = S.static_view(PROBE_ROOT, use_subpath=False)
+        out['path_info'] = [[[ord(c) for c in p]] + name_of(view, request(p)) for p in PATH_INFOS]
+        # --- find_resource_path
+        fr = []
+        vf = S.static_view(os.path.join(tmp, 'site'), use_subpath=True)
+        vp = S.static_view(pkg + ':static', use_subpath=True)
+        for is_pkg, view, prefix, ospfx in ((False, vf, os.path.join(tmp, 'site') + '/', os.path.join(tmp, 'site') + '/'),
+                                            (True, vp, 'static/', os.path.join(tmp, pkg, 'static') + '/')):
+            for leaf, there, isdir in (('file.txt', True, False), ('dir', True, True), ('missing', False, False)):
+                r = view.find_resource_path(prefix + leaf)
+                kind = 'none' if r is None else 'path' if r == ospfx + leaf else 'other'
+                fr.append([is_pkg, there, isdir, kind])
+        out['find_resource'] = fr
+        out['status'] = 'ok'
+    except BaseException as e:      # noqa — fail closed
+        out = {'status': 'unknown: %s: %s' % (type(e).__name__, str(e)[:200])}
+    finally:
+        shutil.rmtree(tmp, ignore_errors=True)
+    return out
+
+
+def facts(src_root):
+    py = '/venv/bin/python' if os.path.exists('/venv/bin/python') else sys.executable
+    env = dict(os.environ, PYTHONPATH=src_root, PYTHONWARNINGS='ignore')
+    try:
+        p = subprocess.run([py, os.path.abspath(__file__), '--probe', src_root], env=env, stdout=subprocess.PIPE, stderr=subprocess.PIPE,
+                           timeout=120)
+        f = json.loads(p.stdout.decode().strip().splitlines()[-1])
+    except Exception as e:          # noqa
+        return {'status': 'unknown: probe did not answer: %s' % type(e).__name__}
+    if f.get('status') == 'ok':
+        want = os.path.realpath(os.path.join(src_root, 'pyramid', 'static.py'))
+        if f.get('module') != want:
+            return {'status': 'unknown: the probe imported %s, not the tree under test' % f.get('module')}
+        for k in ('chars', 'elems', 'secure', 'resource_name', 'path_info', 'find_resource'):
+            if not isinstance(f.get(k), list):
+                return {'status': 'unknown: probe answer lacks %s' % k}
+    return f
+
+
+# ------------------------------------------------------------------------------------------------
+# Lean output
 
 def _lean_char(c):
-    if c == '\x00':
-        return "'\\x00'"
-    if c == '\\':
-        return "'\\\\'"
-    if c == "'":
-        return "'\\''"
-    if 32 <= ord(c) < 127:
+    if 32 < ord(c) < 127 and c not in "'\\":
         return "'%s'" % c
-    return "(Char.ofNat %d)" % ord(c)
+    return '(Char.ofNat %d)' % ord(c)
 
 
 def _lean_text(s):
     return '[' + ', '.join(_lean_char(c) for c in s) + ']'
 
 
-def _set_elts(node):
-    if isinstance(node, ast.Set):
-        return node.elts
-    if isinstance(node, ast.Call) and getattr(node.func, 'id', None) in ('set', 'frozenset') and len(node.args) == 1 \
-            and isinstance(node.args[0], (ast.List, ast.Tuple, ast.Set)):
-        return node.args[0].elts
-    return None
+def _lean_opt(s):
+    return 'none' if s is None else '(some %s)' % _lean_text(s)
 
 
-def _is_os_sep(node):
-    return isinstance(node, ast.Attribute) and node.attr == 'sep' and isinstance(node.value, ast.Name) and node.value.id == 'os'
+def _lean_tuple(t):
+    return '[' + ', '.join(_lean_text(x) for x in t) + ']'
 
 
-def _returns_none(body):
-    return len(body) == 1 and isinstance(body[0], ast.Return) and (
-        body[0].value is None or (isinstance(body[0].value, ast.Constant) and body[0].value.value is None))
+def _lean_bool(b):
+    return 'true' if b else 'false'
 
 
-def _is_join_of(node, param):
-    return (isinstance(node, ast.Call) and isinstance(node.func, ast.Attribute) and node.func.attr == 'join'
-            and isinstance(node.func.value, ast.Constant) and node.func.value.value == '/'
-            and len(node.args) == 1 and isinstance(node.args[0], ast.Name) and node.args[0].id == param and not node.keywords)
-
-
-def facts(src_root):
-    path = os.path.join(src_root, 'pyramid', 'static.py')
-    tree = ast.parse(open(path).read())
-    top = {}
-    funcs = {}
-    for st in tree.body:
-        if isinstance(st, ast.Assign) and len(st.targets) == 1 and isinstance(st.targets[0], ast.Name):
-            top[st.targets[0].id] = st.value
-        elif isinstance(st, ast.FunctionDef):
-            funcs[st.name] = st
-    out = {}
-
-    # --- the character set
-    chars, why = [], None
-    elts = _set_elts(top.get('_invalid_element_chars'))
-    if elts is None:
-        why = '_invalid_element_chars is not a set literal'
-    else:
-        for e in elts:
-            if isinstance(e, ast.Constant) and isinstance(e.value, str) and len(e.value) == 1:
-                chars.append(e.value)
-            elif _is_os_sep(e):
-                chars.append(os.sep)
-            else:
-                why = 'unexpected element in _invalid_element_chars'
-    out['chars'] = [] if why else chars
-    out['chars_shape'] = 'unknown: ' + why if why else 'ok'
-
-    # --- the element set
-    elems, why = [], None
-    v = top.get('_has_insecure_pathelement')
-    if not (isinstance(v, ast.Attribute) and v.attr == 'intersection'):
-        why = '_has_insecure_pathelement is not <set>.intersection'
-    else:
-        elts = _set_elts(v.value)
-        if elts is None:
-            why = '_has_insecure_pathelement is not built from a set literal'
-        else:
-            for e in elts:
-                if isinstance(e, ast.Constant) and isinstance(e.value, str):
-                    elems.append(e.value)
-                else:
-                    why = 'unexpected element in the insecure path element set'
-    out['elems'] = [] if why else elems
-    out['elems_shape'] = 'unknown: ' + why if why else 'ok'
-
-    # --- _contains_invalid_element_char
-    f = funcs.get('_contains_invalid_element_char')
-    ok = False
-    if f is not None and len(f.args.args) == 1 and len(f.body) == 1 and isinstance(f.body[0], ast.For):
-        item = f.args.args[0].arg
-        loop = f.body[0]
-        if (isinstance(loop.target, ast.Name) and isinstance(loop.iter, ast.Name) and loop.iter.id == '_invalid_element_chars'
-                and not loop.orelse and len(loop.body) == 1 and isinstance(loop.body[0], ast.If)):
-            t = loop.body[0]
-            c = t.test
-            if (isinstance(c, ast.Compare) and len(c.ops) == 1 and isinstance(c.ops[0], ast.In) and isinstance(c.left, ast.Name)
-                    and c.left.id == loop.target.id and isinstance(c.comparators[0], ast.Name) and c.comparators[0].id == item
-                    and not t.orelse and len(t.body) == 1 and isinstance(t.body[0], ast.Return)
-                    and isinstance(t.body[0].value, ast.Constant) and t.body[0].value.value is True):
-                ok = True
-    out['contains_shape'] = 'ok' if ok else 'unknown: _contains_invalid_element_char has another shape'
-
-    # --- _secure_path
-    f = funcs.get('_secure_path')
-    why = None
-    if f is None or len(f.args.args) != 1:
-        why = '_secure_path missing or with another signature'
-    else:
-        p = f.args.args[0].arg
-        body = [s for s in f.body if not (isinstance(s, ast.Expr) and isinstance(s.value, ast.Constant))]    # docstring
-        checks = set()
-        i = 0
-        while i < len(body) and isinstance(body[i], ast.If):
-            t = body[i]
-            if t.orelse or not _returns_none(t.body):
-                why = 'a check of _secure_path does not just return None'
-                break
-            c = t.test
-            if (isinstance(c, ast.Call) and isinstance(c.func, ast.Name) and c.func.id == '_has_insecure_pathelement'
-                    and len(c.args) == 1 and isinstance(c.args[0], ast.Name) and c.args[0].id == p):
-                checks.add('elements')
-            elif (isinstance(c, ast.Call) and isinstance(c.func, ast.Name) and c.func.id == 'any' and len(c.args) == 1
-                  and isinstance(c.args[0], (ast.ListComp, ast.GeneratorExp)) and len(c.args[0].generators) == 1):
-                comp = c.args[0]
-                g = comp.generators[0]
-                e = comp.elt
-                if (isinstance(g.target, ast.Name) and isinstance(g.iter, ast.Name) and g.iter.id == p and not g.ifs
-                        and isinstance(e, ast.Call) and isinstance(e.func, ast.Name) and e.func.id == '_contains_invalid_element_char'
-                        and len(e.args) == 1 and isinstance(e.args[0], ast.Name) and e.args[0].id == g.target.id):
-                    checks.add('chars')
-                else:
-                    why = 'unrecognised any(...) check in _secure_path'
-                    break
-            else:
-                why = 'unrecognised check in _secure_path'
-                break
-            i += 1
-        rest = body[i:]
-        if why is None:
-            if checks != {'elements', 'chars'}:
-                why = '_secure_path does not perform both refusals (found %s)' % sorted(checks)
-            elif len(rest) == 1 and isinstance(rest[0], ast.Return) and _is_join_of(rest[0].value, p):
-                pass
-            elif (len(rest) == 2 and isinstance(rest[0], ast.Assign) and len(rest[0].targets) == 1
-                  and isinstance(rest[0].targets[0], ast.Name) and _is_join_of(rest[0].value, p)
-                  and isinstance(rest[1], ast.Return) and isinstance(rest[1].value, ast.Name)
-                  and rest[1].value.id == rest[0].targets[0].id):
-                pass
-            else:
-                why = "_secure_path does not end with return '/'.join(path_tuple)"
-    out['secure_shape'] = 'unknown: ' + why if why else 'ok'
-
-    # --- the call site in get_resource_name
-    why = 'static_view.get_resource_name not found'
-    for n in tree.body:
-        if isinstance(n, ast.ClassDef) and n.name == 'static_view':
-            for g in n.body:
-                if isinstance(g, ast.FunctionDef) and g.name == 'get_resource_name':
-                    why = _call_site(g)
-    out['callsite_shape'] = 'unknown: ' + why if why else 'ok'
-    why1 = why2 = 'static_view not found'
-    for n in tree.body:
-        if isinstance(n, ast.ClassDef) and n.name == 'static_view':
-            why1, why2 = 'get_resource_name not found', 'find_resource_path not found'
-            for g in n.body:
-                if isinstance(g, ast.FunctionDef) and g.name == 'get_resource_name':
-                    why1 = _decode_once(g)
-                if isinstance(g, ast.FunctionDef) and g.name == 'find_resource_path':
-                    why2 = _regular_file(g)
-    out['decodeonce_shape'] = 'unknown: ' + why1 if why1 else 'ok'
-    out['regularfile_shape'] = 'unknown: ' + why2 if why2 else 'ok'
-    return out
-
-
-def _decode_once(g):
-    """if self.use_subpath: t = request.subpath / else: t = traversal_path_info(<raw PATH_INFO of request.environ>)"""
-    if len(g.args.args) != 2:
-        return 'get_resource_name has another signature'
-    req = g.args.args[1].arg
-    raw = {"%s.environ.get('PATH_INFO', '/')" % req, "%s.environ['PATH_INFO']" % req, "%s.environ.get('PATH_INFO', '')" % req}
-    for st in g.body:
-        if isinstance(st, ast.If) and ast.unparse(st.test) == 'self.use_subpath':
-            if not (len(st.body) == 1 and isinstance(st.body[0], ast.Assign) and ast.unparse(st.body[0].value) == '%s.subpath' % req):
-                return 'the use_subpath branch does not take request.subpath'
-            if not (len(st.orelse) == 1 and isinstance(st.orelse[0], ast.Assign) and isinstance(st.orelse[0].value, ast.Call)
-                    and ast.unparse(st.orelse[0].value.func) == 'traversal_path_info' and len(st.orelse[0].value.args) == 1):
-                return 'the other branch is not traversal_path_info(<one argument>)'
-            if ast.unparse(st.body[0].targets[0]) != ast.unparse(st.orelse[0].targets[0]):
-                return 'the two branches assign different names'
-            arg = ast.unparse(st.orelse[0].value.args[0])
-            if arg not in raw:
-                return 'traversal_path_info is applied to %s, not to the raw PATH_INFO of request.environ' % arg
-            return None
-    return 'no `if self.use_subpath:` in get_resource_name'
-
-
-def _regular_file(g):
-    if len(g.args.args) != 2:
-        return 'find_resource_path has another signature'
-    nm = g.args.args[1].arg
-    body = [s for s in g.body if not (isinstance(s, ast.Expr) and isinstance(s.value, ast.Constant))]
-    if not (len(body) == 1 and isinstance(body[0], ast.If) and ast.unparse(body[0].test) == 'self.package_name'):
-        return 'find_resource_path is not `if self.package_name: … elif …`'
-    top = body[0]
-    ex, isd = 'resource_exists(self.package_name, %s)' % nm, 'resource_isdir(self.package_name, %s)' % nm
-
-    def both(t):
-        if not (isinstance(t, ast.BoolOp) and isinstance(t.op, ast.And) and len(t.values) == 2):
-            return False
-        pos = [v for v in t.values if not isinstance(v, ast.UnaryOp)]
-        neg = [v for v in t.values if isinstance(v, ast.UnaryOp) and isinstance(v.op, ast.Not)]
-        return len(pos) == 1 and len(neg) == 1 and ast.unparse(pos[0]) == ex and ast.unparse(neg[0].operand) == isd
-    if not (len(top.body) == 1 and isinstance(top.body[0], ast.If) and not top.body[0].orelse
-            and both(top.body[0].test)
-            and len(top.body[0].body) == 1 and isinstance(top.body[0].body[0], ast.Return)
-            and ast.unparse(top.body[0].body[0].value) == 'resource_filename(self.package_name, %s)' % nm):
-        return 'package branch is not `if resource_exists(…) and not resource_isdir(…): return resource_filename(…)`'
-    if not (len(top.orelse) == 1 and isinstance(top.orelse[0], ast.If) and not top.orelse[0].orelse
-            and ast.unparse(top.orelse[0].test) == 'isfile(%s)' % nm and len(top.orelse[0].body) == 1
-            and isinstance(top.orelse[0].body[0], ast.Return) and ast.unparse(top.orelse[0].body[0].value) == nm):
-        return 'filesystem branch is not `elif isfile(name): return name`'
-    return None
-
-
-def _call_site(g):
-    """`path = _secure_path(path_tuple)`; `if path is None: raise HTTPNotFound(...)`; path_tuple not used afterwards"""
-    body = [s for s in g.body if not (isinstance(s, ast.Expr) and isinstance(s.value, ast.Constant))]
-    idx = None
-    for i, st in enumerate(body):
-        if (isinstance(st, ast.Assign) and isinstance(st.value, ast.Call) and isinstance(st.value.func, ast.Name)
-                and st.value.func.id == '_secure_path' and len(st.value.args) == 1 and isinstance(st.value.args[0], ast.Name)
-                and len(st.targets) == 1 and isinstance(st.targets[0], ast.Name)):
-            idx = i
-    if idx is None:
-        return 'get_resource_name does not assign the result of _secure_path(<tuple>)'
-    checked, tup = body[idx].targets[0].id, body[idx].value.args[0].id
-    if idx + 1 >= len(body):
-        return 'nothing follows the _secure_path call'
-    t = body[idx + 1]
-    c = t.test if isinstance(t, ast.If) else None
-    if not (c is not None and isinstance(c, ast.Compare) and isinstance(c.left, ast.Name) and c.left.id == checked
-            and len(c.ops) == 1 and isinstance(c.ops[0], ast.Is) and isinstance(c.comparators[0], ast.Constant)
-            and c.comparators[0].value is None and len(t.body) == 1 and isinstance(t.body[0], ast.Raise)
-            and isinstance(t.body[0].exc, ast.Call) and getattr(t.body[0].exc.func, 'id', None) == 'HTTPNotFound' and not t.orelse):
-        return 'the None result of _secure_path does not raise HTTPNotFound at once'
-    for st in body[idx + 2:]:
-        for n in ast.walk(st):
-            if isinstance(n, ast.Name) and n.id == tup:
-                return 'the unchecked tuple is used after the _secure_path check'
-            if isinstance(n, ast.Attribute) and n.attr in ('subpath', 'path_info'):
-                return 'request.%s is read again after the _secure_path check' % n.attr
-    return None
+def _lean_str(s):
+    return '"' + s.replace('\\', '\\\\').replace('"', '\\"').replace('\n', ' ') + '"'
 
 
 def generate(src_root):
     f = facts(src_root)
+    ok = f.get('status') == 'ok'
     summary.clear()
-    summary.update(f)
-    lines = ['/- GENERATED by extract/c16.py from src/pyramid/static.py — do not edit. -/',
-             'namespace Pyr.Static.Gen', '',
-             '/-- `_invalid_element_chars` (os.sep = \'/\' on POSIX) -/',
-             'def invalidElementChars : List Char := [%s]' % ', '.join(_lean_char(c) for c in sorted(f['chars'])),
-             '', '/-- the set `_has_insecure_pathelement` intersects with -/',
-             'def insecureElements : List (List Char) := [%s]' % ', '.join(_lean_text(s) for s in sorted(f['elems'])),
-             '']
-    for k in ('chars_shape', 'elems_shape', 'contains_shape', 'secure_shape', 'callsite_shape', 'decodeonce_shape', 'regularfile_shape'):
-        lines.append('def %s : String := %s' % (k.replace('_shape', 'Shape'), '"' + f[k].replace('\\', '\\\\').replace('"', '\\"') + '"'))
-    lines += ['', 'end Pyr.Static.Gen', '']
-    return {'PyramidModel/Gen/C16.lean': '\n'.join(lines)}
+    summary.update({'status': f.get('status'), 'chars': f.get('chars'), 'elems': f.get('elems'),
+                    'entries': {k: len(f[k]) for k in ('secure', 'resource_name', 'path_info', 'find_resource')} if ok else None})
+    g = (lambda k: f[k]) if ok else (lambda k: [])
+    L = ['/- GENERATED by extract/c16.py by probing the code of src/pyramid/static.py — do not edit. -/',
+         'namespace Pyr.Static.Gen', '',
+         '/-- "ok", or why the probe of the tree under test could not be trusted -/',
+         'def probeStatus : String := %s' % _lean_str(f.get('status', 'unknown: no status')), '',
+         '/-- the root the filesystem probes were made with (does not exist; nothing below it is a directory) -/',
+         'def probeRoot : List Char := %s' % _lean_text(PROBE_ROOT), '',
+         '/-- the characters that make `_secure_path` refuse an element -/',
+         'def invalidElementChars : List Char := [%s]' % ', '.join(_lean_char(chr(c)) for c in g('chars')), '',
+         '/-- the elements (free of those characters) that make `_secure_path` refuse a tuple -/',
+         'def insecureElements : List (List Char) := [%s]' % ', '.join(_lean_text(e) for e in g('elems')), '',
+         '/-- `_secure_path(t)` -/',
+         'def securePathProbe : List (List (List Char) × Option (List Char)) := [',
+         ',\n'.join('  (%s, %s)' % (_lean_tuple(t), _lean_opt(r)) for t, r in g('secure')), ']', '',
+         '/-- `(package root?, request.subpath, outcome, name)` of `get_resource_name` with `use_subpath=True` -/',
+         'def resourceNameProbe : List (Bool × List (List Char) × String × List Char) := [',
+         ',\n'.join('  (%s, %s, %s, %s)' % (_lean_bool(p), _lean_tuple(t), _lean_str(k), _lean_text(n or '')) for p, t, k, n in g('resource_name')), ']', '',
+         '/-- `(raw PATH_INFO bytes, outcome, name)` of `get_resource_name` with `use_subpath=False` -/',
+         'def pathInfoProbe : List (List Nat × String × List Char) := [',
+         ',\n'.join('  (%s, %s, %s)' % (json.dumps(b), _lean_str(k), _lean_text(n or '')) for b, k, n in g('path_info')), ']', '',
+         '/-- `(package root?, exists, is a directory, what find_resource_path returned: "path" = the OS path of the name)` -/',
+         'def findResourceProbe : List (Bool × Bool × Bool × String) := [',
+         ',\n'.join('  (%s, %s, %s, %s)' % (_lean_bool(p), _lean_bool(t), _lean_bool(d), _lean_str(k)) for p, t, d, k in g('find_resource')), ']', '',
+         'end Pyr.Static.Gen', '']
+    return {'PyramidModel/Gen/C16.lean': '\n'.join(L)}
 
 
 if __name__ == '__main__':
-    import sys
-    print(generate(sys.argv[1] if len(sys.argv) > 1 else '/repo/src')['PyramidModel/Gen/C16.lean'])
+    if len(sys.argv) > 2 and sys.argv[1] == '--probe':
+        print(json.dumps(_probe()))
+    else:
+        print(generate(sys.argv[1] if len(sys.argv) > 1 else '/repo/src')['PyramidModel/Gen/C16.lean'])
